@@ -1019,6 +1019,14 @@ where
     }
 }
 
+#[cfg(priority_queue_verif)]
+impl<I, P, H> DoublePriorityQueue<I, P, H> {
+    /// Read-only snapshot of the raw representation (see [`crate::VerifSnapshot`]).
+    pub fn verif_snapshot(&self) -> crate::VerifSnapshot<'_, I, P> {
+        self.store.verif_snapshot()
+    }
+}
+
 //FIXME: fails when the vector contains repeated items
 // FIXED: repeated items ignored
 impl<I, P, H> From<Vec<(I, P)>> for DoublePriorityQueue<I, P, H>
